@@ -13,6 +13,10 @@ Sources (current working tree of /repo):
       `macroman_chars`, `pdfdoc_chars` (+ the keys removed from the Latin-1 clone);
       decode_with_encoding: the `byte < 0x80` split and the replacement character
 
+  oxidize-pdf-core/src/text/extraction_cmap.rs
+      decode_winansi, decode_macroman, decode_standard (whole match) and the dispatch on the base encoding
+      name in decode_with_encoding
+
 Every function body is matched as a WHOLE against a template (comments stripped, white space
 collapsed) whose only holes are the arm lists / constants; so a change of control flow around the
 tables is noticed too.  Output lines understood by tools/check.py:
@@ -28,6 +32,7 @@ VERIF = os.path.dirname(os.path.dirname(os.path.abspath(__file__)))
 REPO = os.environ.get("VERIF_REPO", "/repo")
 SRC_TEXT = os.path.join(REPO, "oxidize-pdf-core/src/text/encoding.rs")
 SRC_PARSER = os.path.join(REPO, "oxidize-pdf-core/src/parser/encoding.rs")
+SRC_XCMAP = os.path.join(REPO, "oxidize-pdf-core/src/text/extraction_cmap.rs")
 OUT_REL = "lean/OxiVerif/Gen/C25Tables.lean"
 OUT = os.path.join(VERIF, OUT_REL)
 
@@ -381,9 +386,17 @@ def translate():
     except OSError as e:
         tie_broken(f"cannot read {SRC_PARSER}: {e}")
 
+    # ---- text/extraction_cmap.rs: the base-encoding decoders of `decode_with_encoding` -----------
+    xtables = None
+    try:
+        xsrc = strip_comments(cut_tests(open(SRC_XCMAP, encoding="utf-8").read()))
+        xtables = translate_xcmap(xsrc)
+    except OSError as e:
+        tie_broken(f"cannot read {SRC_XCMAP}: {e}")
+
     expected = {"winansi_encode_char", "macroman_encode_char", "winansi_decode_char", "te_encode_winansi",
                 "te_encode_macroman", "te_decode_winansi", "te_decode_macroman"}
-    if {t[0] for t in tables} != expected or limit is None or ptables is None:
+    if {t[0] for t in tables} != expected or limit is None or ptables is None or xtables is None:
         return None
 
     camel = {
@@ -409,6 +422,10 @@ def translate():
     out.append(f"def strictAsciiMax : Nat := 0x{limit:02X}")
     out.append("")
     out.extend(ptables)
+    for nm, (arms, dflt), doc in xtables:
+        out.append(lean_arms(nm + "Arms", arms, doc))
+        out.append(lean_dflt(nm + "Dflt", dflt))
+        out.append("")
     out.append("end OxiVerif.C25.Gen")
     return "\n".join(out) + "\n"
 
@@ -513,6 +530,44 @@ def translate_parser(psrc):
     out.append("def edReplacement : Nat := 0xFFFD")
     out.append("")
     return out
+
+
+T_XC = "fn {name}(byte: u8) -> char {{ match byte {{ <<arms>> }} }}"
+T_XC_STD = "fn decode_standard(byte: u8) -> char { byte as char }"
+XC_DISPATCH = ('let ch = match font_info.encoding.as_deref() { Some("WinAnsiEncoding") => decode_winansi(byte), '
+               'Some("MacRomanEncoding") => decode_macroman(byte), Some("StandardEncoding") => decode_standard(byte), '
+               '_ => byte as char, };')
+
+
+def translate_xcmap(xsrc):
+    """text/extraction_cmap.rs: decode_winansi / decode_macroman / decode_standard (private functions used by
+    `decode_with_encoding` for fonts without ToUnicode) -> [(lean name, (arms, dflt), doc)]"""
+    res = []
+    for fn, lean in (("decode_winansi", "xcDecodeWinAnsi"), ("decode_macroman", "xcDecodeMacRoman")):
+        body = fn_body(xsrc, r"fn " + fn + r"\(byte: u8\)", "extraction_cmap::" + fn)
+        if body is None:
+            return None
+        g = hole_match(T_XC.format(name=fn), norm(body), "extraction_cmap::" + fn)
+        if not g:
+            return None
+        r = parse_match(g["arms"], "char", "extraction_cmap::" + fn, 0xFF)
+        if not r:
+            return None
+        res.append((lean, r, f"`{fn}` (text/extraction_cmap.rs): `match byte`"))
+    body = fn_body(xsrc, r"fn decode_standard\(byte: u8\)", "extraction_cmap::decode_standard")
+    if body is None:
+        return None
+    if norm(body) != T_XC_STD:
+        tie_broken("extraction_cmap::decode_standard is no longer `byte as char`")
+        return None
+    res.append(("xcDecodeStandard", ([], ("ident",)), "`decode_standard` (text/extraction_cmap.rs): `byte as char` (\"Latin-1 as approximation\")"))
+    body = fn_body(xsrc, r"fn decode_with_encoding\(text_bytes: &\[u8\], font_info: &FontInfo\)", "extraction_cmap::decode_with_encoding")
+    if body is None:
+        return None
+    if XC_DISPATCH not in norm(body):
+        tie_broken("extraction_cmap::decode_with_encoding: the base-encoding dispatch no longer has the expected shape")
+        return None
+    return res
 
 
 def committed_snapshot():
